@@ -4,6 +4,7 @@ package c16
 
 import (
 	"fmt"
+	"math"
 	"math/big"
 	"os"
 	"sort"
@@ -266,8 +267,37 @@ func (g *gen) refTriple() []aref {
 var tests = []string{"", " :test 'eq", " :test 'eql", " :test 'equal", " :test 'equalp", " :test #'equal", " :size 10"}
 var testCode = map[string]int{"eq": 0, "eql": 1, "equal": 2, "equalp": 3}
 
+func simpleNode(n *node) bool {
+	switch n.k {
+	case kNil, kTru, kFix, kChr, kStr, kSym, kVec:
+		return true
+	}
+	return false
+}
+
+// simpleAtom: a key of the kinds on which the table is expected to be a finite map under eql
+func (g *gen) simpleAtom() *node {
+	switch g.rng.Intn(12) {
+	case 0:
+		return &node{k: kNil}
+	case 1:
+		return &node{k: kTru}
+	case 2, 3, 4:
+		return nFix(common.Pick(g.rng, []int64{0, 1, 5, -5, 255, 256, 1000, 16777217, 9007199254740993, math.MaxInt64, math.MinInt64}))
+	case 5:
+		return nChr(common.Pick(g.rng, charPool))
+	case 6, 7, 8:
+		return nStr(common.Pick(g.rng, stringPool))
+	case 9:
+		return nVec(nFix(int64(g.rng.Intn(3))))
+	default:
+		return nSym(common.Pick(g.rng, symbolPool))
+	}
+}
+
 func (g *gen) keyPool() []aref {
 	n := 3 + g.rng.Intn(4)
+	simple := g.rng.Chance(60)
 	pool := make([]aref, 0, n)
 	for i := 0; i < n; i++ {
 		if i > 0 && g.rng.Chance(55) {
@@ -278,15 +308,25 @@ func (g *gen) keyPool() []aref {
 			case 1:
 				pool = append(pool, mkref(base.n))
 			default:
-				pool = append(pool, mkref(g.variant(base.n)))
+				v := g.variant(base.n)
+				for tries := 0; simple && !simpleNode(v) && tries < 8; tries++ {
+					v = g.variant(base.n)
+				}
+				if simple && !simpleNode(v) {
+					v = base.n
+				}
+				pool = append(pool, mkref(v))
 			}
 			continue
 		}
 		// mostly hashable kinds; lists now and then
 		var nd *node
-		if g.rng.Chance(12) {
+		switch {
+		case simple:
+			nd = g.simpleAtom()
+		case g.rng.Chance(12):
 			nd = g.object(1)
-		} else {
+		default:
 			nd = g.atom()
 		}
 		pool = append(pool, mkref(nd))
@@ -323,6 +363,15 @@ func runHt(ctx *common.Ctx, g *gen, n int) {
 			pterms[i] = refTerm(r, w)
 			pshow[i] = fmt.Sprintf("%d:%s@%d", i, r.n.show(), w.id(r.o))
 			ctx.Hist("ht-key:" + r.n.kindName())
+		}
+		// the reported test, as the implementation answers it on every ordered pair of keys
+		trows := make([]string, len(pool))
+		for i, a := range pool {
+			cells := make([]string, len(pool))
+			for j, b := range pool {
+				cells[j] = fmt.Sprintf("%d%%N", predCode(call(s, tname, a.o, b.o)))
+			}
+			trows[i] = "[" + strings.Join(cells, "; ") + "]"
 		}
 		nops := 1 + g.rng.Intn(12)
 		ops := make([]string, 0, nops)
@@ -405,7 +454,7 @@ func runHt(ctx *common.Ctx, g *gen, n int) {
 				oshow = append(oshow, "maphash -> "+obs[len(obs)-1])
 			}
 		}
-		term := fmt.Sprintf("mk_ht_case %d%%N [%s] [%s] [%s]", tcode, strings.Join(pterms, "; "), strings.Join(ops, "; "), strings.Join(obs, "; "))
+		term := fmt.Sprintf("mk_ht_case %d%%N [%s] [%s] [%s] [%s]", tcode, strings.Join(pterms, "; "), strings.Join(trows, "; "), strings.Join(ops, "; "), strings.Join(obs, "; "))
 		if !seen[term] {
 			seen[term] = true
 			if interesting {
@@ -421,7 +470,8 @@ func runHt(ctx *common.Ctx, g *gen, n int) {
 	}
 	footer := "Definition res := Eval vm_compute in check_all_ht cases.\nPrint res.\n" +
 		"Definition histories_in_table_guard := Eval vm_compute in ht_guarded cases : N.\nPrint histories_in_table_guard.\n" +
-		"Definition histories_not_a_finite_map_under_the_test := Eval vm_compute in ht_spec_violations cases : N.\nPrint histories_not_a_finite_map_under_the_test.\n"
+		"Definition histories_not_a_finite_map_under_the_test := Eval vm_compute in ht_spec_violations cases : N.\nPrint histories_not_a_finite_map_under_the_test.\n" +
+		"Definition guarded_pools_outside_pool_ok := Eval vm_compute in ht_guard_implies_pool_ok cases : N.\nPrint guarded_pools_outside_pool_ok.\n"
 	ctx.WriteShards("cases_ht", header, "ht_case", footer, terms, descs, 6)
 	ctx.Meta.Evaluations += len(terms)
 	ctx.Meta.DistinctNontrivial += nontrivial
